@@ -251,6 +251,14 @@ def handle (op : String) (fs : List (String × String)) : String :=
     match parseFont fs, (getField fs "lookups").bind readLookups with
     | some f, some ls => natsHex (if getField fs "tab" == some "gpos" then explainGpos f ls else explainGsub f ls)
     | _, _ => "bad-case"
+  else if op == "dsl.meaning" then
+    -- what a chained rule written in the notation denotes: the backtrack entries are listed in
+    -- reading order and stored closest-to-the-input first, the lookahead entries in reading order.
+    -- The expectation is computed from the entries as the case line lists them in text order
+    -- (not from any parse)
+    match getField fs "back", getField fs "look" with
+    | some b, some l => "back=" ++ ",".intercalate (b.splitOn ",").reverse ++ ";look=" ++ l
+    | _, _ => "bad-case"
   else if op == "dsl.rtrepeat" then
     -- the round trip parsed many times over: every repetition gives the lookups (the format choice
     -- of GSUB 1 must not depend on the order in which the parser visits its map)
